@@ -111,6 +111,7 @@ struct Adv {
     produced_windows: BTreeSet<u64>,
     /// own chains: window -> (chain A tip, chain B tip)
     late_queue: Vec<(u64, usize, Vec<u8>, Vec<usize>)>,
+    injected: BTreeSet<Vec<u8>>,
 }
 
 fn vote_bytes(v: Vote) -> Vec<u8> {
@@ -229,12 +230,16 @@ impl Adv {
             let net = self.net.lock().unwrap();
             obs.certs[self.certs_cursor..]
                 .iter()
-                .filter(|c| c.valid)
+                .filter(|c| c.valid && c.from < self.cfg.n && self.cfg.roles[c.from] == Role::Correct)
                 .filter_map(|c| net.taps.iter().rev().find(|t| t.seq == c.seq).map(|t| (c.from, t.bytes.as_ref().clone())))
                 .collect()
         };
         self.certs_cursor = obs.certs.len();
         for (_, bytes) in net_taps {
+            // each distinct certificate is re-delivered at most once
+            if !self.injected.insert(bytes.clone()) {
+                continue;
+            }
             match kernel::choose(ADV, 4) {
                 0 => {}
                 1 => {
@@ -375,6 +380,7 @@ pub async fn run_adversary(shared: AdvShared, cfg: ClusterCfg, net: SharedNet, p
         certs_cursor: 0,
         produced_windows: BTreeSet::new(),
         late_queue: Vec::new(),
+        injected: BTreeSet::new(),
     };
     let mut hostile = crate::hostile::Hostile::new(&adv.cfg, &profile);
     loop {
